@@ -37,6 +37,11 @@ pub struct Env {
     /// hints, locale, time zone, home, user, terminal width, log level); 0 = untouched
     #[serde(default)]
     pub envvars_seed: u64,
+    /// seed for a handful of small heap blocks the caller thread allocates (and keeps) before the
+    /// workload starts: shifts the 16/32/64-byte phase and the addresses of everything the
+    /// workload allocates afterwards; 0 = none
+    #[serde(default)]
+    pub heap_seed: u64,
     /// when present the scheduler follows this list instead of policy + PRNG
     #[serde(default)]
     pub replay: Option<Vec<(u64, u32)>>,
@@ -58,15 +63,17 @@ impl Env {
             context: Context::External,
             cpus: 1,
             envvars_seed: 0,
+            heap_seed: 0,
             replay: None,
         }
     }
     pub fn describe(&self) -> String {
         format!(
-            "T={} cpus={} envvars={} policy={} sched={} entropy={} clock={} ctx={:?}{}",
+            "T={} cpus={} envvars={} heap={} policy={} sched={} entropy={} clock={} ctx={:?}{}",
             self.threads,
             self.cpus,
             self.envvars_seed,
+            self.heap_seed,
             self.policy,
             self.sched_seed,
             self.entropy_seed,
@@ -179,12 +186,14 @@ pub fn run_sim_warm<R: Send>(env: &Env, warm: impl Fn() + Sync + Send, f: impl F
     sim::set_default_config(cfg.clone());
     sim::install_global(cfg);
     let ctx = env.context;
+    let heap_seed = env.heap_seed;
     let results = std::thread::scope(|s| {
         std::thread::Builder::new()
             .name("sim-caller".into())
             .stack_size(64 << 20)
             .spawn_scoped(s, || {
                 seams::set_thread_id(1);
+                let _ballast = heap_ballast(heap_seed);
                 panic::catch_unwind(AssertUnwindSafe(|| match ctx {
                     Context::External => vec![f()],
                     Context::Warm => {
@@ -271,4 +280,14 @@ fn restore_env_vars(saved: Vec<(&'static str, Option<std::ffi::OsString>)>) {
             None => std::env::remove_var(k),
         }
     }
+}
+
+/// seeded small allocations kept alive for the duration of a run
+fn heap_ballast(seed: u64) -> Vec<Vec<u8>> {
+    if seed == 0 {
+        return vec![];
+    }
+    let mut r = crate::prng::Prng::new(seed ^ 0x4EA9);
+    let n = 1 + r.below(9) as usize;
+    (0..n).map(|_| vec![0u8; 8 + 16 * r.below(13) as usize]).collect()
 }
